@@ -165,17 +165,29 @@ codec("skepticoin.datatypes.Block",
 # of the object: contracts/datatypes.py)
 @CD.contract("skepticoin.datatypes.Transaction.hash#C07", props=["C07"])
 def _(c):
+    c.summary("tx_id")
     c.requires(TX_ID_OK % (("self",) * 3))
     c.ensures("result == sha256d(self.serialize())", "len(result) == 32")
 
 
 @CD.contract("skepticoin.datatypes.Block.hash#C07", props=["C07"])
 def _(c):
+    c.summary("block_id")
     c.requires(BLOCK_ID_OK % (("self",) * 3))
     c.ensures("result == sha256d(self.header.serialize())", "len(result) == 32")
 
 
-for q in ("skepticoin.datatypes.BlockHeader.hash", "skepticoin.datatypes.BlockSummary.hash"):
+for q, uf in (("skepticoin.datatypes.BlockHeader.hash", "header_id"), ("skepticoin.datatypes.BlockSummary.hash", "summary_id")):
     @CD.contract(q + "#C07", props=["C07"])
-    def _(c):
+    def _(c, uf=uf):
+        c.summary(uf)
         c.ensures("result == sha256d(self.serialize())", "len(result) == 32")
+
+
+# the list encoding the proof-of-work evidence hashes (C06): the bytes of serialize_list are the list codec's bytes
+@CD.contract("skepticoin.serialization.serialize_list#C06", props=["C06"])
+def _(c):
+    c.params(lst=LIST(CLS("Transaction")))
+    c.summary("enc_list")
+    c.returns(BYTES)
+    c.ensures("result == G.vlq(len(lst)) + G.enc_list(lst, len(lst))")
